@@ -125,6 +125,16 @@ impl<T> NetworkMessage<T> {
     }
 }
 
+#[cfg(feature = "verif")]
+impl<T> NetworkMessage<T> {
+    /// The elements of the batch, for the verification hooks.
+    pub(crate) fn verif_elements(&self) -> &[StreamElement<T>] {
+        match &self.data {
+            NetworkData::Batch(v) => v,
+        }
+    }
+}
+
 impl<T> IntoIterator for NetworkMessage<T> {
     type Item = StreamElement<T>;
 
